@@ -309,6 +309,8 @@ func c05Unused(msg any, what string) {
 func c05Header() []byte {
 	b := make([]byte, 80)
 	b[0], b[1] = nondetU8("b0"), nondetU8("b1")
+	// any serial number, 0 (the discovery request, an unconfigured controller) included
+	b[4], b[5], b[6], b[7] = nondetU8("serial.0"), nondetU8("serial.1"), nondetU8("serial.2"), nondetU8("serial.3")
 	return b[:nondetLen("n", 80)]
 }
 
@@ -327,6 +329,7 @@ func VerifC05_DispatchResponse() {
 		verifReach("c05.dispatch.response.unknown")
 		return
 	}
+	verifAssert(err == nil, "UnmarshalResponse: a 64-byte message with a known function code and an all-zero body decodes, whatever its serial number")
 	if err == nil {
 		verifAssert(r != nil && reflect.TypeOf(r) == reflect.TypeOf(f()), "UnmarshalResponse: returns the message type whose function code is in the header")
 		verifReach("c05.dispatch.response.ok")
@@ -348,6 +351,7 @@ func VerifC05_DispatchRequest() {
 		verifReach("c05.dispatch.request.unknown")
 		return
 	}
+	verifAssert(err == nil, "UnmarshalRequest: a 64-byte message with a known function code and an all-zero body decodes, whatever its serial number")
 	if err == nil {
 		verifAssert(r != nil && reflect.TypeOf(r) == reflect.TypeOf(f()), "UnmarshalRequest: returns the message type whose function code is in the header")
 		verifReach("c05.dispatch.request.ok")
